@@ -163,6 +163,7 @@ def run(tier, PROP="C03"):
             "e2e_outcomes": traps,
             "sim_semantics_cases": sim["cases"], "sim_semantics_outcomes": sim["outcomes"], "sim_semantics_skipped": sim["skipped"],
             "sim_semantics_calls_considered": sim["calls_considered"], "sim_semantics_disagreements": len(sim["disagreements"]),
+            "sim_semantics_nan_payload_leaks_tolerated": sim.get("nan_payload_leaks_tolerated", 0),
             "sim_semantics_runs_whose_call_graph_has_callees": sim.get("runs_whose_call_graph_has_callees", 0),
             "sim_semantics_tables_compared_with_E_elem": sim["tables_compared"], "sim_semantics_core_variant_modules": len(core_specs), "op_histogram": ec.top(ops, 60), "corpus_modules": len(corpus),
             "traces_validated_against_impl": stats["calls_compared"],
